@@ -162,11 +162,11 @@ static void check_case(vg::Src& s, vh::Ctx& c)
     GraphState st0 = g->state();
     size_t want_cols = pm.all_single ? 1 : static_cast<size_t>(grid->n_neighbors_max());
     c.expect(st0.rcols == want_cols, "receiver-table-width", "receivers has " + std::to_string(st0.rcols) + " columns, expected " + std::to_string(want_cols));
-    c.expect(g->impl_single_flow() == pm.all_single, "impl-single-flow", "impl().single_flow() mismatch");
+    // (the implementation's own single_flow() flag is not part of the statement: only the table
+    // width is)
     for (size_t k = 0; k < pm.graph_keys.size(); ++k)
     {
         va::IGraph& sg = g->graph_snapshot(pm.graph_keys[k]);
-        c.expect(sg.impl_single_flow() == pm.snap_single[k], "snapshot-direction", "snapshot " + pm.graph_keys[k] + " has the wrong direction flag");
         c.expect(sg.state().rcols == (pm.snap_single[k] ? 1u : static_cast<size_t>(grid->n_neighbors_max())), "snapshot-table-width", pm.graph_keys[k]);
     }
     // one update on a small field: returned reference is the caller's array iff no operator
